@@ -217,6 +217,58 @@ def validate_const_slot(body, tb, slot_term, width, const_term):
     return False, "no validating comparison found"
 
 
+WIRE_FIELDS = {"IndexEntry": {"tag", "data_type", "offset", "num_items"},
+               "IndexHeader": {"magic", "version", "num_entries", "data_section_size", "header_size"},
+               "Lead": None}   # None: every field
+
+
+def wire_field_writes(f):
+    """(body, stmt, struct, field) for every field assignment (not whole-struct construction) to a wire-format field."""
+    out = []
+    for b in f.body_list:
+        if b.derived:
+            continue
+        for bb in b.reachable():
+            for st in b.stmts(bb):
+                if st["k"] != "assign" or not st["lhs"]["p"]:
+                    continue
+                names = [p.get("n") for p in st["lhs"]["p"] if isinstance(p, dict) and "n" in p]
+                if not names:
+                    continue
+                ty = b.local_ty(st["lhs"]["l"])
+                for sname, flds in WIRE_FIELDS.items():
+                    hit = ("header::%s<" % sname in ty or ty.endswith("header::" + sname) or "lead::%s" % sname in ty or
+                           ("header::Header<" in ty and sname == "IndexHeader" and "index_header" in names))
+                    if hit and (flds is None or names[-1] in flds):
+                        out.append((b, st, sname, names[-1]))
+    return out
+
+
+def check_wire_write_once(f, rep, rule):
+    """What was read is what is written (and hashed): on the parse side the wire fields of an index entry, an index header or
+    the lead are set once, from the input, by the struct's own parse function - nothing adjusts them afterwards."""
+    roots = []
+    for rx in (r"package::Package::parse$", r"package::PackageMetadata::parse$", r"header::Header::<T>::parse$", r"header::Header::<T>::parse_header$",
+               r"Header::<constants::IndexSignatureTag>::parse_signature$", r"lead::Lead::parse$", r"header::IndexEntry::<T>::parse$", r"header::IndexHeader::parse$",
+               r"package::Package::open$", r"package::PackageMetadata::open$"):
+        bs = [b for b in f.find(rx=rx) if b.kind != "closure"]
+        roots += bs
+    if not rep.anchor(len(roots) >= 8, rule, "parse entry points (Package/PackageMetadata/Header/Lead/IndexEntry/IndexHeader)"):
+        return
+    cone = f.cone(roots)
+    writes = wire_field_writes(f)
+    # live control: the scanner sees the builder-side writes that exist today (from_entries sets offsets, clear() resets the counts)
+    outside = [w for w in writes if w[0].path not in cone]
+    rep.floor(rule, "wire-field assignments the scanner finds outside the parse cone (control)", len(outside), 4)
+    inside = [w for w in writes if w[0].path in cone]
+    for (b, st, sname, fld) in inside:
+        rep.finding(rule, "parse-side-write|%s|%s.%s" % (fmt_key(b.path), sname, fld),
+                    "%s assigns %s.%s after it was read: the value written back (and hashed by verify_digests) is no longer the one in the input" % (b.path, sname, fld),
+                    "%s:%s" % (b.file, st.get("line")))
+    if not inside:
+        rep.ok(rule, "no parse-side function assigns a wire field of IndexEntry / IndexHeader / Lead after reading it (%d bodies in the parse cone)" % len(cone))
+
+
 def run(f, fixture, rep, cfg, tier):
     rep.explanation = (
         "Sibling agreement between each parser and its writer over MIR: the reader's decoder chain (nom decoders with static "
@@ -228,7 +280,7 @@ def run(f, fixture, rep, cfg, tier):
     rep.trusted = ["rustc nightly MIR", "nom decoders consume exactly their nominal width", "std::io::Read::read_exact / Write::write_all contracts",
                    "rpm format documentation for the oracle tables"]
     for r, d in (("R1", "wire agreement"), ("R2", "verbatim or validated"), ("R3", "write ignores decoded data"), ("R4", "type-code bijection"),
-                 ("R5", "store is the untouched remainder"), ("R6", "one padding function")):
+                 ("R5", "store is the untouched remainder"), ("R6", "one padding function"), ("R7", "parsed wire fields are never adjusted")):
         rep.rule(r, d)
 
     check_struct(f, rep, "IndexHeader", f.one("header::IndexHeader::parse"), f.one("header::IndexHeader::write"), "header::IndexHeader")
@@ -350,6 +402,9 @@ def run(f, fixture, rep, cfg, tier):
     ok = len(tfr) == 10 and sorted(tfr) == list(range(10)) and all(tto.get(v) == k for k, v in tfr.items())
     rep.check(ok, "R4", "type-code-bijection", "type_as_u32(from_type_as_u32(i)) == i for i in 0..=9 (%d rows)" % len(tfr),
               "type code tables do not compose to the identity: from=%s to=%s" % (tfr, tto), fr.span)
+
+    # ---- R7 ----------------------------------------------------------------------------------------------
+    check_wire_write_once(f, rep, "R7")
 
     # ---- R6 padding ----------------------------------------------------------------------------------
     pr = f.one("IndexSignatureTag>::padding_required")
